@@ -88,6 +88,7 @@ def build_traces(path, tier, seed):
     for i in range(nint):
         dt = gen.dt(rng)
         mode = i % 5
+        spectra_first = False
         if mode == 0:
             target = dt
         elif mode == 1:
@@ -96,8 +97,13 @@ def build_traces(path, tier, seed):
                 dt, target = NICE_PAIRS[i // 5]                # decimal pairs whose quotient is one ulp off a whole number: every run
         elif mode == 2:
             target = dt / float(rng.integers(2, 9))            # commensurate, refine
-            if i // 5 < len(NICE_PAIRS):
+            if i // 5 < len(NICE_PAIRS) and i % 2:
                 target, dt = NICE_PAIRS[i // 5]
+            elif rng.integers(3):
+                # the step the object's response spectra are integrated at by default (shortest default period 0.1 s / 20, or dt / 4)
+                dt = float(rng.choice([0.0125, 0.015, 0.011, 0.013, 0.0075, 0.021]))
+                target = max(0.1 / 20.0, dt / 4.0)
+                spectra_first = True
         elif mode == 3 and i % 10 == 3:
             target = dt * (1.0 + float(rng.choice([5e-6, -5e-6, 1e-9, -1e-9, 1e-13, 3e-4, -3e-4])))   # almost, but not, equal steps
         else:
@@ -115,6 +121,11 @@ def build_traces(path, tier, seed):
             x = np.round((np.abs(x) if dtc is np.uint8 else x) / (float(np.max(np.abs(x))) + 1e-300) * top).astype(dtc)
             shape += " (%s counts)" % np.dtype(dtc).name
         even = bool(i % 3 == 0)
+        if spectra_first:
+            even = True
+            if len(x) % 2 == 0:
+                x = x[:-1]
+                n = len(x)
         raised, ndt, y, ondt, same = False, 0.0, [], 0.0, False
         try:
             with warnings.catch_warnings():
@@ -122,6 +133,10 @@ def build_traces(path, tier, seed):
                 xin = x.copy()
                 y, ndt = tp.interp_array_to_approx_dt(xin, dt, target, even=gen.flag(rng, even))
                 oin = eqsig.AccSignal(x.copy(), dt)
+                if rng.integers(2):
+                    gen.asig_noise(rng, oin)          # spectra, peaks, durations ... of the same object read just before
+                if spectra_first:
+                    _ = (oin.s_a, oin.s_d)            # the response spectra were computed (on the record refined to this very step)
                 o = tp.interp_to_approx_dt(oin, target, even=gen.flag(rng, even))
                 if rng.integers(2):
                     # history: the same array / object again (also after a Fourier resample of the same object, and after its
